@@ -299,7 +299,7 @@ def contract(target, property=None, **kw):  # noqa: A002
         ns.update(kw)
         ns["target"] = target
         ns["property"] = property
-        for fn in ("requires", "ensures", "on_raise", "pure_spec", "native_call", "make_self", "observe", "effects", "invariant", "ensures_callee", "on_raise_callee", "effects_raise", "setup", "call_real", "missing_field", "comprehension_sum", "decode_model", "decreases"):
+        for fn in ("requires", "ensures", "on_raise", "pure_spec", "native_call", "make_self", "observe", "effects", "invariant", "ensures_callee", "on_raise_callee", "effects_raise", "setup", "call_real", "missing_field", "comprehension_sum", "decode_model", "decreases", "binop"):
             if fn in ns and inspect.isfunction(ns[fn]):
                 ns[fn] = staticmethod(ns[fn])
         C = type(cls.__name__, (Contract,), ns)
@@ -343,6 +343,10 @@ class VerifyTask:
         self.config = config or Config()
         if c.max_paths:
             self.config.max_paths = c.max_paths
+        if getattr(c, "branch_timeout_ms", None):
+            # feasibility checks at branches: an `unknown` answer keeps the branch (sound), so a contract whose
+            # path conditions carry quantifiers may ask for a shorter budget per check
+            self.config.branch_timeout_ms = c.branch_timeout_ms
         self.ref = fn_override or SRC.resolve(c.target)
         self.used_contracts: set = set()
         self.inlined: set = set()
